@@ -800,11 +800,54 @@ fn nonlocal_return_family(rng: &mut Rng, tag: usize) -> Vec<String> {
     forms
 }
 
+/// a variable that a closure mentions only inside a quasiquote template (a list, a vector, a
+/// dotted or a nested template) is a reference like any other: it denotes the binding of the
+/// enclosing procedure, not a global of the same name, and shares its location with a setter
+fn template_reference_family(rng: &mut Rng, tag: usize) -> Vec<String> {
+    let t = tag;
+    let template = |rng: &mut Rng, a: &str, b: &str| -> String {
+        match rng.below(7) {
+            0 | 1 => format!("`#(,{a} ,{b})"),
+            2 => format!("`(,{a} . ,{b})"),
+            3 => format!("`(k #(,{a}) (,{b}))"),
+            4 => format!("`#(,{b} #(,{a}))"),
+            5 => format!("`(1 `(2 ,(3 ,{a})) ,{b})"),
+            _ => format!("`#(tag ,(list {a}) #(,{b}) ,{a})"),
+        }
+    };
+    let t1 = template(rng, &format!("qx{t}"), "qy");
+    let t2 = template(rng, "v", &format!("qx{t}"));
+    let t3 = template(rng, "qy", "qy");
+    let mut forms = vec![
+        format!("(define qx{t} 'global-x)"),
+        format!("(define qy 'global-y)"),
+        // the creator's parameters have the names of globals
+        format!("(define (qmk{t} qx{t} qy) (lambda () {t1}))"),
+        format!("((qmk{t} 1 2))"),
+        format!("(define qc{t} (qmk{t} 'one 'two))"),
+        format!("(qc{t})"),
+        // reader through a template, setter in the same activation
+        format!("(define (qcell{t} v) (cons (lambda () {t2}) (lambda (n) (set! v n))))"),
+        format!("(define qp{t} (qcell{t} 10))"),
+        format!("((car qp{t}))"),
+        format!("((cdr qp{t}) 12)"),
+        format!("((car qp{t}))"),
+    ];
+    if rng.chance(1, 2) {
+        // two levels of procedures between the binding and the template
+        forms.push(format!("(define (qdeep{t} qy) (lambda (unused) (lambda () {t3})))"));
+        forms.push(format!("(((qdeep{t} 'deep) 0))"));
+    }
+    forms.push(format!("(list qx{t} qy)"));
+    forms
+}
+
 pub fn call_shape_session(rng: &mut Rng) -> Vec<Sx> {
     let n = 1 + rng.usize(3);
     let mut texts = vec![];
     for tag in 0..n {
-        match rng.below(6) {
+        match rng.below(7) {
+            6 => texts.extend(template_reference_family(rng, tag)),
             0 => texts.extend(internal_define_family(rng, tag)),
             1 => texts.extend(procedure_valued_family(rng, tag)),
             2 | 3 => texts.extend(nonlocal_return_family(rng, tag)),
